@@ -22,12 +22,12 @@ PLAN = {
     "quick": {"configs": ["ext1", "ext0"], "nshards": 10, "nshards_ext0": 6, "timeout": 900},
     "thorough": {"configs": ["ext1", "ext0"], "nshards": 16, "timeout": 3400, "suite": ["ext1"]},
 }
-DECIDING = ["token", "format.whole", "named", "roundtrip", "roundtrip.locale", "partial", "mismatch"]
+DECIDING = ["token", "token.hook", "format.whole", "named", "roundtrip", "roundtrip.locale", "partial", "mismatch"]
 FLOORS = {"quick": {"token": 300000, "format.whole": 30000, "named": 20000, "roundtrip": 30000, "roundtrip.locale": 10000, "partial": 5000,
                     "mismatch": 10000},
           "thorough": {"token": 3 * 10**6, "format.whole": 300000, "named": 200000, "roundtrip": 300000, "roundtrip.locale": 100000,
                        "partial": 50000, "mismatch": 100000}}
-REQUIRED_HOOKS = ["Formatter._format_token", "Formatter.parse", "pendulum.from_format"]
+REQUIRED_HOOKS = ["pendulum.from_format"]      # Formatter._format_token / Formatter.parse hooks add reach (internal calls); tokens are judged at the boundary
 TECHNIQUE = "runtime contract on Formatter._format_token against a per-token reference (strftime + integer arithmetic + the locale's own tables), whole-format and named-format checkers, format->from_format round-trip checker"
 LEVEL_TEXT = ("every token rendered during the workloads is compared with an independent per-token reference; whole formats built from random "
               "token sequences with separators, [escaped] text and backslash escapes are compared with the concatenated reference; named "
@@ -194,7 +194,7 @@ def setup(M):
         if exp is None:
             M.count("token.no_reference:" + tok)
             return
-        M.check("token", ret == exp, f"C08/token:{tok}" + (f":{ln}" if tok in LOCALIZED and ret != exp else ""), "token rendering differs from the reference",
+        M.check("token.hook", ret == exp, f"C08/token:{tok}" + (f":{ln}" if tok in LOCALIZED and ret != exp else ""), "token rendering differs from the reference",
                 value=f"{x.isoformat()} fold={x.fold}", token=tok, locale=ln, got=ret, expected=exp)
 
     M.contract(FM, "_format_token", post=tok_post, label="Formatter._format_token")
@@ -268,7 +268,12 @@ def run(M, c):
                 if kind == "naive" and tok in ("X", "x"):
                     continue      # a timestamp is only defined for aware values
                 try:
-                    x.format(tok, locale=loc)          # contract on _format_token judges
+                    got = x.format(tok, locale=loc)          # the private _format_token hook judges internal calls as well
+                    if not (x.tzinfo is not None and (off_us(x) // US) % 60 and tok in ("Z", "ZZ")):
+                        exp = ref_token(x, tok, M.data[loc])
+                        if exp is not None:
+                            M.check("token", got == exp, f"C08/token:{tok}" + (f":{loc}" if tok in LOCALIZED and got != exp else ""),
+                                    "token rendering differs from the reference", value=f"{x.isoformat()} fold={x.fold}", token=tok, locale=loc, got=got, expected=exp)
                 except Exception as e:  # noqa: BLE001
                     M.check("token", False, f"C08/token-raised-{type(e).__name__}:{tok}", "format raised", value=x.isoformat(), token=tok, locale=loc,
                             exc=repr(e)[:120])
